@@ -156,7 +156,7 @@ def run(ctx):
                 "variable) and (c) byte- and token-level mutations of rendered programs: non-zero exit with a message or a clean "
                 "success, never a panic, stack overflow or hang. non-trivial = invalid, mutated or >= 3 declarations; distinct by text")
     ctx.assumptions += ["valid = IDL!Valid; Dart output is only checked for balanced brackets / quotes (no SDK); Java output is parsed, not "
-                        "type-checked (no Frugal / Thrift jars); Go output is type-checked for the default option set only"]
+                        "type-checked (no Frugal / Thrift jars); Go output is type-checked for the default option set and for async,slim"]
     frugal = ctx.frugal_bin()
     progs = []
     old = ctx.seed
@@ -277,9 +277,11 @@ def run(ctx):
             lab = "none"    # a valid program; its family is in feat[d]
         tgts = TARGETS if lab == "none" else ["go", "java", "py", "json"]
         if lab == "none" and nmain <= i < len(valid):
-            tgts = ["go", "java", "py", "dart"]    # the focus programs: default options of four targets
+            tgts = ["go", "java", "py", "dart"]    # the focus programs: default options of four targets (+ Go's slim flavour every third)
         for t in tgts:
             opts = OPTIONS[t] if (lab == "none" and i % 4 == 0 and i < nmain) else OPTIONS[t][:1]
+            if t == "go" and lab == "none" and nmain <= i < len(valid) and i % 3 == 0:
+                opts = ["", "go:async,slim"]
             for o in opts:
                 gen = o or t
                 jobs.append((d, lab, os.path.join(rdir, d), "main.frugal", gen, "ok" if lab == "none" else "diagnostic",
@@ -421,17 +423,17 @@ def run(ctx):
     h = ctx.harness()
     gobuilt = 0
     for job, out in okgo:
-        if job[4] != "go":
+        if job[4] not in ("go", "go:async,slim"):
             continue
-        # regenerate with a package prefix that resolves inside the harness module
-        tag = re.sub(r"[^A-Za-z0-9]", "", job[0])
+        # regenerate with a package prefix that resolves inside the harness module (the slim flavour next to the default one)
+        tag = re.sub(r"[^A-Za-z0-9]", "", job[0]) + ("slim" if job[4] != "go" else "")
         dst = os.path.join(h, "gen11", tag)
         fname = job[3]
         if fname == "main.frugal":
             # without a go namespace the package is named after the file; "main" would demand a func main
             shutil.copy(os.path.join(job[2], fname), os.path.join(job[2], "prog.frugal"))
             fname = "prog.frugal"
-        rc, text, wall = run_frugal(frugal, ["-gen", "go:package_prefix=verifharness/gen11/%s/" % tag, "-out", dst, "-r", fname], cwd=job[2])
+        rc, text, wall = run_frugal(frugal, ["-gen", "go:%spackage_prefix=verifharness/gen11/%s/" % ("async,slim," if job[4] != "go" else "", tag), "-out", dst, "-r", fname], cwd=job[2])
         if rc != 0:
             continue
         gobuilt += 1
@@ -440,7 +442,7 @@ def run(ctx):
         if p.returncode != 0:
             bad = sorted(set(re.findall(r"gen11/([A-Za-z0-9]+)/", p.stdout)))
             for tag in bad[:12]:
-                job = [j for j, _ in okgo if re.sub(r"[^A-Za-z0-9]", "", j[0]) == tag and j[4] == "go"]
+                job = [j for j, _ in okgo if re.sub(r"[^A-Za-z0-9]", "", j[0]) + ("slim" if j[4] != "go" else "") == tag and j[4] in ("go", "go:async,slim")]
                 src = open(os.path.join(job[0][2], job[0][3])).read() if job else ""
                 msgs = [l for l in p.stdout.splitlines() if ("gen11/%s/" % tag) in l][:5]
                 dkey = job[0][0] if job else tag
